@@ -107,10 +107,25 @@ class World:
         n = int(m.group(1))
         self.events[n] = {"kind": kind, "sender": sender, "ts": int(m.group(3)), "idnum": int(m.group(2)), "mid": m.group(4),
                           "parent_token": before["token"] if before else None, "parent_epoch": before["epoch"] if before else None,
-                          "parent_nid": before["nid"] if before else None,
+                          "parent_nid": before["nid"] if before else None, "tag_nid": before["nid"] if before else None,
                           "sender_admin": (str(sender) in before["admins"].split(",")) if before else None,
                           "line": line}
         return n
+    def republish(self, line):
+        """`rewrap n ts` / `retag n j`: an observer publishes the same ciphertext under a new wrapper (fresh ephemeral key;
+        chosen timestamp / the nostr group id client j holds now)"""
+        t = line.split()
+        r, _ = self.do(line)
+        m = re.match(r"ev=(\d+) idnum=(\d+) ts=(-?\d+)", r)
+        if not m:
+            return None
+        k, victim = int(m.group(1)), int(t[1])
+        self.events[k] = dict(self.events.get(victim, {}))
+        self.events[k].update({"ts": int(m.group(3)), "idnum": int(m.group(2)), "rewrap_of": victim, "line": line})
+        if t[0] == "retag":
+            f = self.fps.get(int(t[2]))
+            self.events[k].update({"retag": True, "tag_nid": f["nid"] if f else None})
+        return k
     def deliver(self, c, n):
         before = self.fps.get(c)
         r, fp = self.do(f"deliver {c} {n}")
@@ -119,7 +134,7 @@ class World:
             k = int(m.group(1))
             self.events[k] = {"kind": "commit", "sender": c, "ts": int(m.group(3)), "idnum": int(m.group(2)), "mid": None,
                               "parent_token": before["token"] if before else None, "parent_epoch": before["epoch"] if before else None,
-                              "parent_nid": before["nid"] if before else None,
+                              "parent_nid": before["nid"] if before else None, "tag_nid": before["nid"] if before else None,
                               "sender_admin": (str(c) in before["admins"].split(",")) if before else None,
                               "line": "auto-commit", "sub": "auto"}
         return r.split()[0], before, self.fps.get(c)
@@ -168,7 +183,7 @@ def gen_data_update(w, rng, c, alive, others, tok, gone=(), p_nid=0.0):
             fields["admins"] = ",".join(map(str, sorted(new))) or "-"
     return " ".join(f"{k} {v}" for k, v in fields.items())
 
-def gen_race_history(w, rng, tier, regime=None, restarts=True, ties=True, p_rewrap=0.25, p_leave=0.0, p_adv=0.25, p_hole=0.3, p_upd=0.2, p_data=0.5, p_nid=0.0):
+def gen_race_history(w, rng, tier, regime=None, restarts=True, ties=True, p_rewrap=0.25, p_leave=0.0, p_adv=0.25, p_hole=0.3, p_upd=0.2, p_data=0.5, p_nid=0.3, p_retag=0.2):
     """setup, then rounds of concurrent actions on one epoch, per-client shuffled delivery with
     duplication, then quiescence rounds"""
     n = rng.choice([2, 3, 3, 4, 5] if tier == "quick" else [2, 3, 4, 5, 6])
@@ -235,12 +250,18 @@ def gen_race_history(w, rng, tier, regime=None, restarts=True, ties=True, p_rewr
         # an observer re-wraps a published event (same ciphertext, fresh ephemeral key, chosen timestamp)
         if new and rng.random() < w.meta.get("p_rewrap", 0.25):
             victim = rng.choice(new)
-            r, _ = w.do(f"rewrap {victim} {base + rng.choice([-8, -3, 0, 4, 9] if ties else [-8, -3, 4, 9])}")
-            m = re.match(r"ev=(\d+) idnum=(\d+) ts=(-?\d+)", r)
-            if m:
-                k = int(m.group(1))
-                w.events[k] = dict(w.events[victim]); w.events[k].update({"ts": int(m.group(3)), "idnum": int(m.group(2)), "rewrap_of": victim, "line": f"rewrap {victim}"})
+            k = w.republish(f"rewrap {victim} {base + rng.choice([-8, -3, 0, 4, 9] if ties else [-8, -3, 4, 9])}")
+            if k is not None:
                 new.append(k)
+        # an observer re-publishes an event (of this round or an earlier one) under the nostr group id some client holds NOW
+        # (the `h` tag is not authenticated); interesting once somebody rotated the id
+        if w.events and rng.random() < p_retag:
+            victim = rng.choice(new) if new and rng.random() < 0.7 else rng.choice(sorted(w.events))
+            if not w.events[victim].get("unmodelled"):
+                # with ties: the original timestamp (the copy then competes with the original by event id); without: a distinct one
+                k = w.republish(f"retag {victim} {rng.choice(alive)}" + ("" if ties and rng.random() < 0.5 else f" {base + rng.choice([-7, -4, 5, 8])}"))
+                if k is not None:
+                    new.append(k)
         # a member asks to leave (a proposal; an admin receiver auto-commits it)
         if rng.random() < w.meta.get("p_leave", 0.0):
             s = rng.choice(alive); ts += 1
@@ -352,7 +373,8 @@ def oracle_world(w):
     fails = []
     SHARED = {"rollback-before-authorisation": ["C01", "C05", "C06"], "refused-after-rollback": ["C06", "C01"],
               "hydrated-timestamp-zero": ["C01", "C11"], "handshake-before-predecessor-blocked": ["C01", "C02"],
-              "record-not-synced": ["C08", "C06"], "rewrapped-commit-rollback": ["C06", "C01", "C07", "C02"]}
+              "record-not-synced": ["C08", "C06"], "rewrapped-commit-rollback": ["C06", "C01", "C07", "C02"],
+              "retagged-commit-rollback": ["C06", "C01", "C02"], "h-rotation-in-flight": ["C02", "C01"]}
     def fail(prop, sig, step, what):
         fails.append({"kind": "oracle", "prop": prop, "props": sorted(set([prop] + SHARED.get(sig, []))), "signature": sig,
                       "what": f"world {w.id} step {step}: {what}", "replay_body": w.text(step, what)})
@@ -386,6 +408,8 @@ def oracle_world(w):
     # ---- per-step predicates (C06 refuse-frame, C07 redelivery, C08 sync) ----
     seen_effect = {}     # (client, event) -> True once a delivery of it was handled with effect
     prev_fp = {}
+    gnf_first = {}       # (client, event) -> step at which the event was refused as GroupNotFound because its tag was not the id in force
+    w.gnf_first = gnf_first
     for i, (cmd, res, fp) in enumerate(w.trace):
         t = cmd.split()
         if res == "panic" or fp == "fp-panic":
@@ -406,6 +430,20 @@ def oracle_world(w):
         if t[0] == "deliver" and c is not None:
             before = prev_fp.get(c)
             r0 = res.split()[0]
+            evr = w.events.get(int(t[2]), {})
+            if before is not None and f is not None and before["state"] == "a" and evr.get("tag_nid") is not None:
+                # C08 routing: the group is looked up by the event's `h` tag among the ids IN FORCE at the receiver now
+                routed = evr["tag_nid"] == before["nid"]
+                recb = before["recs"].get(int(t[2]))
+                if recb is not None and recb[0] in ("f", "x"):
+                    want = "unprocessable" if routed else "previously_failed"
+                    if r0 != want:
+                        fail("C08", "routing-not-by-current-id", i, f"`{cmd}`: blocked event tagged I{evr['tag_nid']} at a client holding I{before['nid']}: {r0}, expected {want}")
+                elif (r0 == "err:GroupNotFound") != (not routed) and not (routed and f["epoch"] < before["epoch"]):
+                    # (routed, rolled back, and not found under the RESTORED id: the retagged-commit mechanism, reported by the frame rule)
+                    fail("C08", "routing-not-by-current-id", i, f"`{cmd}`: event tagged I{evr['tag_nid']} at a client holding I{before['nid']} returned {r0}")
+                if r0 == "err:GroupNotFound" and not routed and (c, int(t[2])) not in gnf_first:
+                    gnf_first[(c, int(t[2]))] = i
             if before is not None and f is not None:
                 if is_refusal(r0) and proj(before) != proj(f):
                     ev = w.events.get(int(t[2]), {})
@@ -413,7 +451,11 @@ def oracle_world(w):
                     if before["epoch"] > f["epoch"]:
                         sig = "rollback-before-authorisation" if (r0.startswith("err:CommitFromNonAdmin") or ev.get("adv")) else "refused-after-rollback"
                         n_ev = int(t[2])
-                        if ev.get("rewrap_of") is not None or any(x.get("rewrap_of") == n_ev for x in w.events.values()):
+                        if r0 == "err:GroupNotFound" and ev.get("retag"):
+                            # a sibling commit re-published under the receiver's NEW id: found, judged better, rolled back — and
+                            # not found under the id the rollback restored
+                            sig = "retagged-commit-rollback"
+                        elif ev.get("rewrap_of") is not None or any(x.get("rewrap_of") == n_ev for x in w.events.values()):
                             # the same commit ciphertext under two wrappers: the later-applied one is 'better' by
                             # timestamp, the rollback happens, and the ciphertext cannot be decrypted a second time
                             sig = "rewrapped-commit-rollback"
@@ -454,7 +496,7 @@ def oracle_world(w):
         if len(views) > 1:
             sig = classify_divergence(w, live)
             if sig == "divergence-unclassified":
-                knocked = [x["signature"] for x in fails if x["signature"] in ("rollback-before-authorisation", "rewrapped-commit-rollback")]
+                knocked = [x["signature"] for x in fails if x["signature"] in ("rollback-before-authorisation", "rewrapped-commit-rollback", "retagged-commit-rollback")]
                 sig = knocked[0] if knocked else sig
             facts["divergence"] = sig
             if sig != "fork-deeper-than-retention":
@@ -483,7 +525,9 @@ def oracle_world(w):
             facts["winner_chain"] = chain
             facts["winner_tokens"] = win_tokens
             if cur is None or cur != common:
-                knocked = [x["signature"] for x in fails if x["signature"] in ("rollback-before-authorisation", "rewrapped-commit-rollback")]
+                knocked = [x["signature"] for x in fails if x["signature"] in ("rollback-before-authorisation", "rewrapped-commit-rollback", "retagged-commit-rollback")]
+                if not knocked and any(w.events.get(n, {}).get("kind") == "commit" and cc in live for (cc, n) in gnf_first):
+                    knocked = ["h-rotation-in-flight"]      # a sibling was never compared: it was not routed after a rotation
                 fail("C01", knocked[0] if knocked else "converged-not-mip03", len(w.trace) - 1, f"members agree on T{common} but the MIP-03 chain {chain} ends in T{cur}")
     # C02: a message created on the winning branch ends stored, valid, at every remaining member
     if getattr(w, "quiesced", False) and live and facts.get("winner_tokens"):
@@ -497,10 +541,14 @@ def oracle_world(w):
                 rec = f["recs"].get(n)
                 if not rows:
                     sig = "handshake-before-predecessor-blocked" if rec and rec[0] == "f" and rec[1] == "-" else "winning-message-missing"
+                    if (c, n) in gnf_first and rec and rec[0] == "f":
+                        sig = "h-rotation-in-flight"        # refused as GroupNotFound: its `h` tag was not the id in force at c
                     fail("C02", sig, len(w.trace) - 1, f"message {e['mid']} (event {n}, sent on the winning branch by c{e['sender']}) is not stored at c{c} (record {rec})")
                 elif rows[0]["state"] not in ("p",) and not (c == e["sender"] and rows[0]["state"] == "c" and rec is None):
                     if rows[0]["state"] != "x":
                         sig = "winning-message-not-valid"
+                        if c == e["sender"] and rows[0]["state"] == "c" and (c, n) in gnf_first:
+                            sig = "h-rotation-in-flight"    # the sender's own echo arrived after it had rotated the id: stays Created
                     elif str(rows[0]["epoch"]) != str(e["parent_epoch"]):
                         # received copies are filed under the receiver's epoch (open finding); the SENDER's own copy
                         # is filed by create_message under its creation epoch and must keep it
@@ -551,6 +599,17 @@ def classify_divergence(w, live):
                 f = parse_fp(fp)
                 if f and f["recs"].get(n_ev, ("", ""))[0] == "f":
                     return "rewrapped-commit-rollback"
+    # somebody rolled back for a sibling re-published under its new id and did not find the group under the restored id
+    for cmd, res, fp in w.trace:
+        t = cmd.split()
+        if t[0] == "deliver" and res.split()[0] == "err:GroupNotFound" and w.events.get(int(t[2]), {}).get("retag") and w.events.get(int(t[2]), {}).get("kind") == "commit":
+            f = parse_fp(fp)
+            if f and any(st == "x" for st, _ in f["recs"].values()):
+                return "retagged-commit-rollback"
+    # a commit was refused as GroupNotFound at a live client because its `h` tag was not the id in force there (rotation)
+    for (c, n), step in getattr(w, "gnf_first", {}).items():
+        if c in live and commits.get(n) is not None and live[c]["recs"].get(n, ("", ""))[0] == "f":
+            return "h-rotation-in-flight"
     # a commit on somebody's path is blocked (Failed, no epoch) at a lagging client
     for c, f in live.items():
         for n, e in commits.items():
@@ -622,6 +681,9 @@ def model_input(w):
             out.append((i, f"deliver {t[1]} {t[2]}" + (f" {ev.group(1)} {ev.group(2)} {ev.group(3)}" if ev else "")))
         elif t[0] == "rewrap":
             out.append((i, f"rewrap {t[1]} {ev.group(1)} {ev.group(3)} {ev.group(2)}" if ev else "bad"))
+        elif t[0] == "retag":
+            if ev:
+                out.append((i, f"retag {t[1]} {t[2]} {ev.group(1)} {ev.group(3)} {ev.group(2)}"))
         else:
             out.append((i, "unsupported " + cmd))
     return out
@@ -795,12 +857,8 @@ def replay_world(path, wid=None):
                 if e is not None and t[0] == "advremove":
                     # unauthorised iff the crafter is not an admin in the state it crafts the commit in
                     w.events[e]["adv"] = not w.events[e].get("sender_admin")
-            elif t[0] == "rewrap":
-                r, _ = w.do(c)
-                m = re.match(r"ev=(\d+) idnum=(\d+) ts=(-?\d+)", r)
-                if m:
-                    k, victim = int(m.group(1)), int(t[1])
-                    w.events[k] = dict(w.events.get(victim, {})); w.events[k].update({"ts": int(m.group(3)), "idnum": int(m.group(2)), "rewrap_of": victim})
+            elif t[0] in ("rewrap", "retag"):
+                w.republish(c)
             elif t[0] == "deliver":
                 w.deliver(int(t[1]), int(t[2]))
             else:
